@@ -141,6 +141,47 @@ func (e *Engine) stepNative(st *State) bool {
 }
 
 func init() {
+	// vpParseSawView(reset): has gjson.Parse been handed an unsafe view since the last reset?
+	harnessModels["vpParseSawView"] = func(e *Engine, st *State, x *ssa.Call, args []Value) bool {
+		setRes(st, x, e.ts.Bool(st.syncInt["parseView"] == 1))
+		if c, ok := args[0].(*Term); ok && c.IsConst() && !c.boolVal() {
+			st.syncInt["parseView"] = 0
+		}
+		return true
+	}
+	// gjson.Result.Value(): an object materialises as a (here: empty, content not modelled)
+	// map[string]any, anything else as a non-map value.
+	models["(github.com/tidwall/gjson.Result).Value"] = func(e *Engine, st *State, x *ssa.Call, args []Value) bool {
+		r := args[0].(*StructV)
+		id, ok := concreteInt(r.F[4].(*Term))
+		if ok {
+			if p := e.nodeByID[id]; p != nil {
+				if _, kind, _, _, _ := e.nodeFields(st, p); kind == 1 {
+					o := e.newObj(st, nil, &MapV{})
+					mt := types.NewMap(types.Typ[types.String], types.NewInterfaceType(nil, nil))
+					setRes(st, x, &IfaceV{T: mt, V: &MapRef{Obj: o}})
+					return true
+				}
+			}
+		}
+		setRes(st, x, &IfaceV{T: types.Typ[types.Float64], V: e.ts.FPConstBits(F64, 0)})
+		return true
+	}
+	// vpRefreshView(s): for a string created by unsafeString, the text its backing bytes hold *now*
+	// (what the native string header would read); any other string unchanged.
+	harnessModels["vpRefreshView"] = func(e *Engine, st *State, x *ssa.Call, args []Value) bool {
+		sv := args[0].(*StrV)
+		if sv.View == nil || sv.View.Obj == nil {
+			setRes(st, x, sv)
+			return true
+		}
+		out := &StrV{View: sv.View}
+		for _, b := range e.sliceElems(st, sv.View) {
+			out.B = append(out.B, b.(*Term))
+		}
+		setRes(st, x, out)
+		return true
+	}
 	harnessModels["vpToGJSON"] = func(e *Engine, st *State, x *ssa.Call, args []Value) bool {
 		setRes(st, x, e.gjsonResult(st, x.Type(), args[0].(*PtrV)))
 		return true
@@ -168,6 +209,9 @@ func init() {
 		}
 		if node == nil {
 			e.abort("UNMODELLED gjson.Parse of non-abstract text")
+		}
+		if sv, ok := args[0].(*StrV); ok && sv.View != nil {
+			st.syncInt["parseView"] = 1 // the parsed text is a view of somebody's buffer, not a copy
 		}
 		setRes(st, x, e.gjsonResult(st, x.Type(), node))
 		return true
@@ -201,9 +245,9 @@ func init() {
 		}
 		switch hv := st.heap[sl.Obj.ID].(type) {
 		case *DocBytesV:
-			setRes(st, x, &StrV{Doc: hv.Node, Len: hv.Len})
+			setRes(st, x, &StrV{Doc: hv.Node, Len: hv.Len, View: &SliceV{Obj: sl.Obj, Off: sl.Off, Len: sl.Len, Cap: sl.Len}})
 		case *ArrayV:
-			out := &StrV{}
+			out := &StrV{View: &SliceV{Obj: sl.Obj, Off: sl.Off, Len: sl.Len, Cap: sl.Len}}
 			for _, b := range e.sliceElems(st, sl) {
 				out.B = append(out.B, b.(*Term))
 			}
